@@ -1708,6 +1708,18 @@ macro_rules! use_fixture {
     };
 }
 
+/// all six orders of a three-member group under a prefix
+macro_rules! use_perms3 {
+    ($v:ident; $($pre:ident)::+; [$($a:tt)*] [$($b:tt)*] [$($c:tt)*]) => {
+        $v.push(use_fixture!(use $($pre)::+::{$($a)*, $($b)*, $($c)*};));
+        $v.push(use_fixture!(use $($pre)::+::{$($a)*, $($c)*, $($b)*};));
+        $v.push(use_fixture!(use $($pre)::+::{$($b)*, $($a)*, $($c)*};));
+        $v.push(use_fixture!(use $($pre)::+::{$($b)*, $($c)*, $($a)*};));
+        $v.push(use_fixture!(use $($pre)::+::{$($c)*, $($a)*, $($b)*};));
+        $v.push(use_fixture!(use $($pre)::+::{$($c)*, $($b)*, $($a)*};));
+    };
+}
+
 fn use_fixture_tree() -> Vec<It> {
     let k = |n: &str, tag: u64| It::Const { name: s(n), ty: None, tag };
     vec![
@@ -1731,6 +1743,15 @@ fn use_fixture_tree() -> Vec<It> {
 /// in groups, one-member and empty groups, top-level groups, trailing commas,
 /// several declarations, modules / constants / types as targets, `self`.
 fn use_fixtures() -> Vec<(Box<dyn Fn() -> roto::Library>, &'static str)> {
+    let mut v = use_fixtures_listed();
+    // every order of: a nested group with a multi-segment member, a multi-segment member, a single name
+    use_perms3!(v; a; [b::c::{three, d::five}] [b::two] [x]);
+    // … and one level down, with a group of depth two, a name of the same spelling as an inner one, `self`
+    use_perms3!(v; a::b; [c::{d::{five}, four}] [x] [self]);
+    v
+}
+
+fn use_fixtures_listed() -> Vec<(Box<dyn Fn() -> roto::Library>, &'static str)> {
     vec![
         use_fixture!(use a::one;),
         use_fixture!(use a::b::c::d::five;),
